@@ -434,7 +434,7 @@ PROPS = {
     ),
     "C11": app(
         "C11",
-        ["C11_invariant", "C11_accept", "C11_other_calls", "C11_one_vote", "C11_nonce_once", "C11_restart", "C11_started"],
+        ["C11_invariant", "C11_accept", "C11_other_calls", "C11_one_vote", "C11_nonce_once", "C11_restart", "C11_started", "C11_voted_keypers_distinct", "C11_started_distinct"],
         "Theorems over every history from every valid genesis (Lean): the vote invariant holds on all reachable states; a "
         "configuration is appended only by a vote that completes a quorum of threshold(current) distinct current keypers for "
         "that identical configuration (larger index, non-decreasing activation, votes reset, fresh eon); one vote per sender "
